@@ -182,6 +182,9 @@ func (rt readTxn) ID() string {
 //
 // If a value already exists for the resource ID, id, an error is returned.
 func (wt writeTxn) Create(v interface{}) error {
+	if wt.id == "" {
+		return errors.New("empty ID string")
+	}
 	if v == nil {
 		return errors.New("create value is nil")
 	}
